@@ -98,7 +98,7 @@ def run_case(case):
                         sig='setup', nontrivial=False, obs={}, sample=None)
     held = {c['held']: c for c in cas if c['held'] is not None}
     obs = dict(requests_sent=0, callbacks_expected=0, claim_answers_expected=0, requests_to_unowned=0)
-    dests = sorted(held) + [255, 255] + [c['pref'] for c in cas if c['held'] is None] + [fresh(2, 250) for _ in range(2)]
+    dests = sorted(held) + [255, 255, 254] + [c['pref'] for c in cas if c['held'] is None] + [fresh(2, 250) for _ in range(2)]     # 254: the null address is nobody's
     pgns = BOUNDARY_PGNS + [rng.randrange(1 << 18) for _ in range(10)] + [pf << 8 for pf in (0xEF, 0xF0, 0xEB, 0xEC)]
 
     def one_request(kind, pgn, d):
